@@ -79,3 +79,15 @@ PROPS['C20']={
  ]}
 
 HOOK_COMMITS=['5414ff1']
+
+PROPS['C03']={
+ 'bounds_statement':'rulelib::apply_rules_on_link from MIR vs. an independent reference model of the specification\'s queue algorithm (oracles/rules.py): every rule of a catalog (all seven kinds; literal, *, directory, ?, class and uninterpretable patterns; source/destination prefixes with and without trailing slash; missing referenced step) followed by a revealing tail rule, over every presence pattern of a 3-path universe with free digest bytes; sequences of two catalog rules in the thorough tier.',
+ 'assumptions':UNIT_ASSUME+['glob::Pattern::{new,matches} modelled for the portable subset (*, **, ?, classes; * and ? match "/", as with the crate\'s default MatchOptions); path_clean::clean modelled (Plan 9 cleanname)',
+                            'reference model = in-toto specification v0.9 section 4.3.3 / reference implementation verify_item_rules, fnmatch-style matching'],
+ 'obligations':[
+  {'name':'basic','module':'harness.C03','cls':'Rules','quick':{'group':'basic','seq':1},'thorough':{'group':'basic','seq':1,'algs':True}},
+  {'name':'match','module':'harness.C03','cls':'Rules','quick':{'group':'match','seq':1},'thorough':{'group':'match','seq':1}},
+  {'name':'inspection_item','module':'harness.C03','cls':'Rules','quick':{'group':'match','seq':1,'item':'inspection','rate':200},'thorough':{'group':'basic','seq':1,'item':'inspection'}},
+  {'name':'basic_seq2','module':'harness.C03','cls':'Rules','tier_only':'thorough','quick':{},'thorough':{'group':'basic','seq':2,'rate':2000}},
+  {'name':'match_seq2','module':'harness.C03','cls':'Rules','tier_only':'thorough','quick':{},'thorough':{'group':'match','seq':2,'rate':2000}},
+ ]}
